@@ -48,7 +48,7 @@ var c17Wide = []struct {
 	s string
 	w int
 }{
-	{"é", 1}, {"ж", 1}, {"ß", 1}, {"€", 1}, {"あ", 2}, {"漢", 2}, {"ｱ", 1}, {"한", 2}, {"😀", 2}, {"𝄞", 1}, {"Ω", 1}, {"字", 2}, {"\ufffd", 1},
+	{"é", 1}, {"ж", 1}, {"ß", 1}, {"€", 1}, {"あ", 2}, {"漢", 2}, {"ｱ", 1}, {"한", 2}, {"😀", 2}, {"𝄞", 1}, {"Ω", 1}, {"字", 2}, {"\ufffd", 1}, {"\ufeff", 0},
 }
 
 var c17WideWidth = func() map[rune]int {
